@@ -39,6 +39,9 @@ def make(maxdeps):
         cspec = TaskSpec("c", "combine", [(":%s" % d["spec"].name) if d["spec"].pkg == cpkg else d["spec"].ident for d in deps], pkg=cpkg)
         pre = PRE[g.choose("pre", len(PRE))]
         two = g.flag("second_run")
+        # between the two combine runs, dependency d0 is re-run on its own (a new version the combine was not part of);
+        # the second combine run is then a plain one (no --again)
+        solo = two and deps[0]["spec"].kind == "run_experiment" and g.flag("dep_rerun_alone")
         proj = hrun.Project()
         try:
             proj.write_tasks([d["spec"] for d in deps] + [cspec])
@@ -54,7 +57,8 @@ def make(maxdeps):
                 else:
                     (proj.root / "elsewhere").mkdir()
                     os.symlink(str(proj.root / "elsewhere"), str(entry0))
-            D = ["%s %s writes=%s" % (d["spec"].kind, d["spec"].ident, d["writes"]) for d in deps] + ["combine %s pre=%s two=%s" % (cspec.ident, pre, two)]
+            D = ["%s %s writes=%s" % (d["spec"].kind, d["spec"].ident, d["writes"]) for d in deps] + [
+            "combine %s pre=%s two=%s dep0_rerun_alone_in_between=%s" % (cspec.ident, pre, two, solo)]
             runs = 2 if two else 1
             nontrivial = False
             for r in range(runs):
@@ -67,7 +71,11 @@ def make(maxdeps):
                 sched = graphs.SymSched(g, all_ok=True, on_spawn=on_spawn)
                 kern = fakeos.Kernel(sched, clock=fakeos.Clock(lambda i, r=r: 1000.0 + 10 * r))
                 before = hrun.tree_digest(entry0) if pre in ("dir",) else None
-                res = hrun.invoke(cli_run.main, hrun.run_ns(task_identifier=cspec.ident, again=(r == 1)), str(proj.root), kern)
+                if r == 1 and solo:
+                    ks = fakeos.Kernel(graphs.SymSched(g, all_ok=True, on_spawn=on_spawn), clock=fakeos.Clock(lambda i: 1005.0))
+                    rs = hrun.invoke(cli_run.main, hrun.run_ns(task_identifier=deps[0]["spec"].ident, again=True), str(proj.root), ks)
+                    g.require(rs.status == 0, "combine:run-failed", "solo re-run of %s: %r; %s" % (deps[0]["spec"].ident, rs.status, D))
+                res = hrun.invoke(cli_run.main, hrun.run_ns(task_identifier=cspec.ident, again=(r == 1 and not solo)), str(proj.root), kern)
                 if isinstance(res.status, str):
                     g.require(False, "combine:crash:" + res.status, "%r; run %d; %s" % (res.exc, r, D))
                 written = {p.name: p.env["COND_OUT"] for p in kern.tasks()}
@@ -87,6 +95,13 @@ def make(maxdeps):
                     if s.kind == "group":
                         continue
                     target = written.get(s.name)
+                    if target is None and s.kind == "run_experiment":
+                        # not executed in this invocation: the selected cached version (newest; git is disabled)
+                        tss = [row[1] for row in proj.index_rows() if row[0] == s.ident]
+                        if tss:
+                            target = str(proj.out / s.pkg / ("%s.task.%d" % (s.name, max(tss))))
+                            if solo and s.name == "d0":
+                                g.goal("dependency re-run on its own between two combine runs")
                     if target is None:
                         continue
                     nonempty = os.path.isdir(target) and bool(os.listdir(target))
@@ -110,7 +125,7 @@ def make(maxdeps):
 
 def spaces(tier):
     goals = ["non-link entry reported as a conflict", "re-run re-points a link to a new version", "dependency in another package",
-             "existing link replaced"]
+             "existing link replaced", "dependency re-run on its own between two combine runs"]
     sp = [Space("deps2", make(2), "1..2 dependencies of kinds {experiment, command, group} in packages {root, p, p/q}, command output "
                 "empty or not, combine task in {root, p}, pre-existing entry {none, dir, file, link}, one or two runs (second with --again)",
                 depth=7, goals=goals, outside=["dangling links made by hand", ">3 dependencies"])]
